@@ -59,7 +59,7 @@ def handleFree (args impl : List String) : Option (String × String) :=
 
 def kindOf (k : String) : Option Life.Kind :=
   if k = "p" then some .pass else if k = "d" then some .discard else if k = "h" then some .hold
-  else if k = "x" then some .decErr else if k = "r" then some .refused else none
+  else if k = "x" then some .decErr else if k = "r" then some .refused else if k = "s" then some .split else none
 
 /-- the model's prediction: run every event's canonical script through Life.step? (capacity
     permitting one at a time) and print what the finalize trace point would have shown -/
@@ -68,7 +68,7 @@ def predictPipe (cap : Nat) (kinds : List Life.Kind) : Option String := do
   let ops := (idx.zip kinds).flatMap (fun (i, k) => Life.script i k)
   let s ← TS.run Life.step? (Life.init cap kinds) ops
   let evs := (idx.zip (s.evs.zip kinds)).map fun (i, e, k) =>
-    let kl := match k with | .pass => "p" | .discard => "d" | .hold => "h" | .decErr => "x" | .refused => "r"
+    let kl := match k with | .pass => "p" | .discard => "d" | .hold => "h" | .decErr => "x" | .refused => "r" | .split => "s"
     Tok.unwords (["e", toString ((i + 1) * 10), kl] ++ e.fins.map toString ++ [";"])
   pure (Tok.unwords (evs ++ ["maxok", "1", "end", toString s.inUse, "0"]))
 
